@@ -96,6 +96,15 @@ def run(ctx):
             x = M.strip(a[2])
             oke = x[0] == "call" and x[1].endswith("::transpose") and x[2][0][0] == "call" and x[2][0][1] == "std::option::Option::<T>::map" \
                 and M.noref(x[2][0][2][0]) == ("param", 3, pe.local_name(3)) and x[2][0][2][1] == ("fnitem", "posix::CVec::new")
+            if not oke and x[0] == "call" and x[1].endswith("::transpose"):
+                inner = M.alts(x[2][0])
+                envp = ("param", 3, pe.local_name(3))
+                def some_cvec(e):
+                    if not (e[0] == "agg" and e[1][:3] == ("adt", "std::option::Option", "Some")):
+                        return False
+                    c_ = M.noref(e[2][0])
+                    return c_[0] == "call" and c_[1] == "posix::CVec::new" and M.noref(c_[2][0]) == ("field", ("downcast", envp, "Some"), "0")
+                oke = len(inner) == 2 and any(e == ("agg", ("adt", "std::option::Option", "None"), ()) for e in inner) and any(some_cvec(e) for e in inner)
         ctx.ob("R06.1", "prep_exec.envvec", oke, pe.loc(nc[0][0]), "PrepExec envvec = %s (must be Some(CVec::new(env)?) / None mirroring the env option)" % M.term_str(a[2]))
     else:
         ctx.ob("R06.1", "prep_exec.shape", False, pe.loc(0), "expected one PrepExec::new call")
